@@ -683,12 +683,96 @@ Proof.
     + destruct (I8 m' Hm') as (w' & ? & ? & ?). exists w'. split; [done|]. split; [done|]. rewrite Hpr. set_solver.
 Qed.
 
+(* ---- L1 role / config / environment messages change neither bank nor logs ---- *)
+Definition l1frame (s s' : L1.l1state) : Prop :=
+  L1.bk s' = L1.bk s ∧ L1.elog s' = L1.elog s ∧ L1.next_seq s' = L1.next_seq s ∧ L1.proven s' = L1.proven s.
+Lemma l1frame_refl s : l1frame s s.
+Proof. by repeat split. Qed.
+Lemma l1frame_trans s1 s2 s3 : l1frame s1 s2 → l1frame s2 s3 → l1frame s1 s3.
+Proof. intros (?&?&?&?) (?&?&?&?). repeat split; congruence. Qed.
+
+Lemma fold_opt_frame {X} (f : L1.l1state → X → option L1.l1state) (l : list X) :
+  (∀ s x s', f s x = Some s' → l1frame s s') →
+  ∀ s s', foldl (λ os x, s0 ← os; f s0 x) (Some s) l = Some s' → l1frame s s'.
+Proof.
+  intros Hf. induction l as [|x l IH]; intros s s'; cbn.
+  - intros [= ->]. apply l1frame_refl.
+  - destruct (f s x) as [s1|] eqn:E; cbn.
+    + intros Hx. eapply l1frame_trans; [eapply Hf; eauto|by apply IH].
+    + intros Hx. exfalso. clear -Hx. induction l as [|y l IHl]; cbn in Hx; [discriminate|auto].
+Qed.
+
+Lemma register_admin_frame s pc a s' : L1.register_admin s pc a = Some s' → l1frame s s'.
+Proof.
+  unfold L1.register_admin. intros Hx. apply bind_Some in Hx as (n & _ & Hx).
+  destruct (negb _); [discriminate|]. case_bool_decide; [discriminate|]. injection Hx as <-. by repeat split.
+Qed.
+
+Lemma hook_challenger_frame c s x s' : L1.hook_challenger c s x = Some s' → l1frame s s'.
+Proof.
+  unfold L1.hook_challenger. destruct (L1.parse c (L1.c_meta x)) as [chs|]; [|intros [= <-]; apply l1frame_refl].
+  intros Hx. apply bind_Some in Hx as (a & _ & [= <-]). clear. revert s.
+  induction chs as [|pc chs IH]; intros s; cbn; [apply l1frame_refl|].
+  eapply l1frame_trans; [|apply IH]. by repeat split.
+Qed.
+
+Lemma hook_metadata_frame c s x s' : L1.hook_metadata c s x = Some s' → l1frame s s'.
+Proof.
+  unfold L1.hook_metadata. destruct (L1.parse c (L1.c_meta x)) as [chs|]; [|intros [= <-]; apply l1frame_refl].
+  intros Hx. apply bind_Some in Hx as (a & _ & Hx).
+  eapply (fold_opt_frame (λ s' pc, if bool_decide (L1.admins s' !! pc = Some a) then Some s'
+                                   else L1.register_admin s' pc a)); [|exact Hx].
+  intros s0 pc s1. case_bool_decide; [intros [= <-]; apply l1frame_refl|apply register_admin_frame].
+Qed.
+
+Lemma l1_admin_frame c e s m s' r :
+  l1_admin m = true → L1.handle c e s m = Some (s', r) → l1frame s s'.
+Proof.
+  destruct m; try discriminate; intros _; cbn [L1.handle].
+  - unfold L1.update_proposer. intros Hx. repeat (destruct (negb _); [discriminate|]). destruct (_ =? 0)%N; [discriminate|].
+    destruct (negb _); [discriminate|]. apply bind_Some in Hx as (x & _ & Hx).
+    repeat (destruct (negb _); [discriminate|]). injection Hx as <- <-. by repeat split.
+  - unfold L1.update_challenger. intros Hx. destruct (negb _); [discriminate|]. destruct (_ =? 0)%N; [discriminate|].
+    destruct (negb _); [discriminate|]. apply bind_Some in Hx as (x & _ & Hx).
+    destruct (negb _); [discriminate|]. apply bind_Some in Hx as (s1 & Hh & Hx).
+    destruct (negb _); [discriminate|]. injection Hx as <- <-.
+    apply hook_challenger_frame in Hh as (?&?&?&?). by repeat split.
+  - unfold L1.update_batch_info. intros Hx. destruct (negb _); [discriminate|]. destruct (_ =? 0)%N; [discriminate|].
+    destruct (_ || _); [discriminate|]. apply bind_Some in Hx as (x & _ & Hx).
+    repeat (destruct (negb _); [discriminate|]). destruct (L1.last_final _ _ _ _) as [i o].
+    injection Hx as <- <-. by repeat split.
+  - unfold L1.update_oracle. intros Hx. destruct (negb _); [discriminate|]. destruct (_ =? 0)%N; [discriminate|].
+    apply bind_Some in Hx as (x & _ & Hx). repeat (destruct (negb _); [discriminate|]).
+    injection Hx as <- <-. by repeat split.
+  - unfold L1.update_metadata. intros Hx. destruct (negb _); [discriminate|]. destruct (_ =? 0)%N; [discriminate|].
+    destruct (_ <? _)%N; [discriminate|]. apply bind_Some in Hx as (x & _ & Hx).
+    destruct (negb _); [discriminate|]. apply bind_Some in Hx as (s1 & Hh & Hx).
+    destruct (negb _); [discriminate|]. injection Hx as <- <-.
+    apply hook_metadata_frame in Hh as (?&?&?&?). by repeat split.
+  - unfold L1.update_params. intros Hx. repeat (destruct (negb _); [discriminate|]).
+    injection Hx as <- <-. by repeat split.
+  - unfold L1.record_batch. intros Hx. destruct (negb _); [discriminate|]. destruct (_ =? 0)%N; [discriminate|].
+    case_bool_decide; [discriminate|]. injection Hx as <- <-. apply l1frame_refl.
+  - intros [= <- <-]. by repeat split.
+  - intros [= <- <-]. by repeat split.
+Qed.
+
+Lemma step_admin1 c s e m : inv c s → inv c (sys_step c s (SAdmin1 e m)).1.
+Proof.
+  intros I. cbn [sys_step]. destruct (l1_admin m) eqn:Ha; [|done]. unfold lift1, L1.step.
+  destruct (L1.handle (c1 c) e (l1 s) m) as [[s1 r]|] eqn:Hh; [|done]. cbn.
+  apply (l1_admin_frame _ _ _ _ _ _ Ha) in Hh as (Hb & Hel & Hsq & Hpr).
+  apply (inv_l1_update c s s1 (donated s)); auto.
+  - by rewrite Hpr.
+  - intros d. rewrite Hb. unfold donations. lia.
+Qed.
+
 (* ------------------------------------------------------------------------------------ *)
 (* 6. the theorems                                                                         *)
 (* ------------------------------------------------------------------------------------ *)
 Lemma step_inv c s m : inv c s → inv c (sys_step c s m).1.
 Proof.
-  intros I. destruct m as [e sender to d amt data|e from to d amt|m2|k ex h hook|e p idx l2b lo hi v bh|e ch idx|e sender idx m lo hi v bh].
+  intros I. destruct m as [e sender to d amt data|e from to d amt|m2|k ex h hook|e p idx l2b lo hi v bh|e ch idx|e sender idx m lo hi v bh|e m1].
   - by apply step_deposit.
   - by apply step_send1.
   - by apply step_l2.
@@ -696,6 +780,7 @@ Proof.
   - cbn [sys_step]. apply step_propose_delete; [|done]. left. eauto.
   - cbn [sys_step]. apply step_propose_delete; [|done]. right. eauto.
   - by apply step_claim.
+  - by apply step_admin1.
 Qed.
 
 Lemma run_inv c h : ∀ s, inv c s → inv c (sys_run c s h).
